@@ -72,7 +72,7 @@ Section Descent.
      node invalid, then a statement with such a node anywhere the validator looks is invalid *)
   Section Local.
     Variable P : stmt -> bool.
-    Hypothesis local : forall pi s b es, P s = true -> check_stmt E T pi s = Ok (b, es) -> b = false.
+    Variable local : forall pi s b es, P s = true -> check_stmt E T pi s = Ok (b, es) -> b = false.
 
     Fixpoint visible_exists (s : stmt) : bool :=
       P s ||
@@ -151,7 +151,7 @@ Qed.
 
 Section Accepted.
   Variable p : program.
-  Hypothesis Hacc : validate p = Ok [].
+  Variable Hacc : validate p = Ok [].
   Notation E := (visit_env p).
 
   Lemma accepted_structs : check_structs E = Ok (true, []).
